@@ -388,6 +388,50 @@ def check_stores(q, graphs, label):
     return viols, n
 
 
+PATH_GRAPHS = [C04.BIG[0], [(C04.A, C04.P, C04.A), (C04.A, C04.Q, C04.ONE)], [(C04.A, C04.P, C04.B), (C04.B, C04.P, C04.B), (C04.B, C04.Q, C04.ONE), (C04.A, C04.Q, C04.TWO)],
+               [(C04.A, C04.P, C04.B), (C04.B, C04.P, C04.A), (C04.B, C04.Q, C04.ZERO)], C04.BIG[4], [(C04.A, C04.P, C04.B), (C04.B, C04.Q, C04.ONE)], []]
+
+
+def check_path_orders(path, graphs):
+    """A triple pattern with a property path next to ordinary patterns: every order of the patterns and both orders of the groups decide which end
+    of the path is bound when it is evaluated; the answers must not depend on it."""
+    pt = C11.to_sparql(path).replace("http://ex.org/p", EX + "p").replace("http://ex.org/q", EX + "q")
+    q = "<%sq>" % EX
+    families = [
+        ["?s %s ?o . ?o %s ?v" % (pt, q), "?o %s ?v . ?s %s ?o" % (q, pt), "{ ?s %s ?o } { ?o %s ?v }" % (pt, q), "{ ?o %s ?v } { ?s %s ?o }" % (q, pt)],
+        ["?s %s ?o . ?s %s ?v" % (pt, q), "?s %s ?v . ?s %s ?o" % (q, pt), "{ ?s %s ?o } { ?s %s ?v }" % (pt, q), "{ ?s %s ?v } { ?s %s ?o }" % (q, pt)],
+        ["?s %s ?o . ?s %s ?v . ?o %s ?w" % (pt, q, q), "?s %s ?v . ?o %s ?w . ?s %s ?o" % (q, q, pt), "?o %s ?w . ?s %s ?o . ?s %s ?v" % (q, pt, q)],
+    ]
+    viols = []
+    evals = 0
+    gs = [build(t) for t in graphs]
+    for fam in families:
+        try:
+            prepared = [prepareQuery("SELECT * WHERE { %s }" % body) for body in fam]
+        except Exception as e:  # noqa: BLE001
+            viols.append({"sig": "path-pattern-order|raises|%s|%s" % (type(e).__name__, C11.top_op(path)), "detail": {"query": fam[0], "exc": repr(e)[:200]},
+                          "case": {"path_orders": path, "graph": graphs[0]}})
+            continue
+        for gi, g in enumerate(gs):
+            answers = []
+            for pq, body in zip(prepared, fam):
+                evals += 1
+                try:
+                    answers.append(evaluate(g, pq))
+                except Exception as e:  # noqa: BLE001
+                    answers.append(("exc", type(e).__name__))
+            if any(a != answers[0] for a in answers[1:]):
+                # re-decide from fresh parses
+                fresh = [evaluate(build(graphs[gi]), "SELECT * WHERE { %s }" % body) for body in fam]
+                if any(a != fresh[0] for a in fresh[1:]):
+                    k = [i for i, a in enumerate(fresh) if a != fresh[0]][0]
+                    viols.append({"sig": "path-pattern-order|answers-differ|%s" % C11.top_op(path),
+                                  "detail": {"base_query": fam[0], "variant_query": fam[k], "base": sorted(map(repr, fresh[0].elements())), "variant": sorted(map(repr, fresh[k].elements()))},
+                                  "case": {"path_orders": path, "graph": graphs[gi]}})
+                    break
+    return viols, evals
+
+
 _THOROUGH = [False]
 
 
@@ -403,6 +447,9 @@ def _batch(arg):
         elif kind == "joins":
             v, n, nt = check_program(it, GRAPHS if _THOROUGH[0] else GRAPHS[:8], only=("operand-swap", "bgp-permutation", "prefixed-names"))
             nontriv += 1 if nt else 0
+        elif kind == "paths":
+            v, n = check_path_orders(it, PATH_GRAPHS)
+            nontriv += 1
         elif kind == "prepared":
             v, n = check_prepared(it, [GRAPHS[0], GRAPHS[3], GRAPHS[7]])
             nontriv += 1
@@ -443,6 +490,10 @@ def run(ctx):
     work = [("rewrite", sh) for sh in R.shards(progs, ctx.jobs * 8)]
     jf = join_family()
     work += [("joins", sh) for sh in R.shards(jf, ctx.jobs * 8)]
+    pf = [p for p in C11.paths_of_depth(2 if thorough else 1) if not C11.has_inverse_negated(p)]
+    if thorough:
+        pf = pf[:: 3]
+    work += [("paths", sh) for sh in R.shards(pf, ctx.jobs * 4)]
     prep = progs[:: (2 if thorough else 11)]
     work += [("prepared", sh) for sh in R.shards(prep, ctx.jobs * 4)]
     sq = store_queries(thorough)
@@ -456,13 +507,14 @@ def run(ctx):
         counts.update(cnt)
     ctx.cov["queries_rewritten"] = len(progs)
     ctx.cov["join_family"] = len(jf)
+    ctx.cov["path_patterns"] = len(pf)
     ctx.cov["prepared_queries"] = len(prep)
     ctx.cov["store_queries"] = len(sq)
     ctx.cov["graphs"] = len(GRAPHS)
     ctx.cov["violating_by_signature"] = dict(counts.most_common(40))
     ctx.cov["exhaustive"] = True
     ctx.cov["rule"] = ("%d queries (all C04 patterns with <=1 operator%s) x {every permutation of each BGP, every join/union operand swap, every permutation of variable names, "
-                       "3 prefix tables (one with two prefixes for the same namespace), initBindings vs VALUES for ?x bound by the outermost BGP} x %d graphs; + %d joins/unions of a BGP with every one-operator pattern x {operand swap, BGP permutation, prefixes}; %d prepared queries x every sequence of <=3 evaluations over 3 graphs "
+                       "3 prefix tables (one with two prefixes for the same namespace), initBindings vs VALUES for ?x bound by the outermost BGP} x %d graphs; + %d joins/unions of a BGP with every one-operator pattern x {operand swap, BGP permutation, prefixes}; + every property path of operator depth <=1 as a triple pattern next to ordinary patterns in every pattern / group order (the order decides which end of the path is bound); %d prepared queries x every sequence of <=3 evaluations over 3 graphs "
                        "(with initBindings at each position); %d queries (patterns, property paths, aggregates) x {SimpleMemory, AuditableStore, ReadOnlyGraphAggregate over every "
                        "2-partition}. Oracle: multiset equality with the base query. Non-trivial: base answer non-empty on >=1 graph." % (
                            len(progs), " + a slice with 2" if thorough else "", len(GRAPHS), len(jf), len(prep), len(sq)))
@@ -471,6 +523,9 @@ def run(ctx):
 
 
 def replay(ctx, case):
+    if "path_orders" in case:
+        v, _ = check_path_orders(C11._tuplify(case["path_orders"]), [[tuple(C04._fix(x) for x in t) for t in case["graph"]]])
+        return [{"sig": x["sig"], "case": case, "detail": x["detail"]} for x in v]
     if "store_query" in case:
         triples = [tuple(C04._fix(x) for x in t) for t in case["graph"]]
         v, _ = check_stores(case["store_query"], [triples], case.get("label", "?"))
